@@ -499,13 +499,13 @@ impl Module {
                 .structs
                 .iter()
                 .find(|s| s.name == res_name)
-                .ok_or_else(|| format!("no struct {res_name}"))?;
+                .ok_or_else(|| interp::UnknownName::Missing(format!("no struct {res_name} for bind group {n}")))?;
             let layout_const_name = format!("LAYOUT_DESCRIPTOR{n}");
             let lc = scope
                 .consts
                 .iter()
                 .find(|c| c.name == layout_const_name)
-                .ok_or_else(|| format!("no const {layout_const_name}"))?;
+                .ok_or_else(|| interp::UnknownName::Missing(format!("no const {layout_const_name} for bind group {n}")))?;
             let label = match lc.val.field("label")?.as_option()? {
                 Some(l) => Some(l.as_str()?.to_string()),
                 None => None,
